@@ -34,6 +34,9 @@ type c03IdentInfo struct {
 	refs   int
 	direct bool // found at least once in a judged location
 	held   bool // found at least once as the dynamic value of an interface
+	// outsideSkip: reached at least once on a path that does not pass a
+	// dials:"-" struct field
+	outsideSkip bool
 }
 
 // c03Span is the backing array of a non-nil slice with capacity > 0.
@@ -61,6 +64,7 @@ type c03Walk struct {
 	typedNilIface int
 	locations     int
 	feats         map[string]bool
+	inSkip        int // dials:"-" struct fields on the current path
 	spans         []c03Span
 	emptyMaps     int // non-nil maps without entries
 	spareSlices   int // zero-length slices with capacity > 0
@@ -84,6 +88,9 @@ func (w *c03Walk) enter(id c03Ident, direct, held bool) bool {
 	}
 	if held {
 		info.held = true
+	}
+	if w.inSkip == 0 {
+		info.outsideSkip = true
 	}
 	if idx, ok := w.onStack[id]; ok {
 		if id.kind == 's' {
@@ -230,7 +237,15 @@ func (w *c03Walk) walk(v reflect.Value, direct, held bool) {
 			if !t.Field(i).IsExported() {
 				continue
 			}
+			skip := t.Field(i).Tag.Get("dials") == "-"
+			if skip {
+				w.inSkip++
+				w.feats["dials-skipped-field-walked"] = true
+			}
 			w.walk(v.Field(i), true, false)
+			if skip {
+				w.inSkip--
+			}
 		}
 	case reflect.Interface:
 		if v.IsNil() {
@@ -297,6 +312,7 @@ type c03Iso struct {
 	// interior: addresses (in the expected graph) that lie inside a node
 	// struct (Leaf pointers to another node's ID); lets the key say so.
 	interior map[uintptr]bool
+	nextHeld bool // the value walked next is the dynamic value of an interface
 }
 
 func newC03Iso() *c03Iso {
@@ -306,7 +322,12 @@ func newC03Iso() *c03Iso {
 
 func (s *c03Iso) fail(kind, detail string) {
 	if s.err == nil {
-		s.err = &c03IsoErr{Kind: kind, Path: strings.Join(s.path, ""), Detail: detail}
+		path := strings.Join(s.path, "")
+		if strings.Contains(path, ".Skip") {
+			// the mismatch sits in or below a dials:"-" field (Skip, SkipM, SkipS, SkipAny)
+			kind += "-at-dials-skipped-field"
+		}
+		s.err = &c03IsoErr{Kind: kind, Path: path, Detail: detail}
 	}
 }
 
@@ -384,6 +405,8 @@ func (s *c03Iso) walk(e, a reflect.Value, direct bool) {
 		return
 	}
 	s.locations++
+	held := s.nextHeld
+	s.nextHeld = false
 	if e.Type() != a.Type() {
 		s.fail("type-mismatch", fmt.Sprintf("expected %s, got %s", e.Type(), a.Type()))
 		return
@@ -437,7 +460,11 @@ func (s *c03Iso) walk(e, a reflect.Value, direct bool) {
 			return
 		}
 		if e.Len() != a.Len() {
-			s.fail("len-mismatch:slice", fmt.Sprintf("expected len %d, got %d", e.Len(), a.Len()))
+			kind := "len-mismatch:slice"
+			if held {
+				kind += "-in-interface"
+			}
+			s.fail(kind, fmt.Sprintf("expected len %d, got %d (%s)", e.Len(), a.Len(), e.Type()))
 			return
 		}
 		if e.Len() == 0 {
@@ -474,7 +501,7 @@ func (s *c03Iso) walk(e, a reflect.Value, direct bool) {
 		if e.IsNil() {
 			return
 		}
-		s.with(".("+e.Elem().Type().String()+")", func() { s.walk(e.Elem(), a.Elem(), false) })
+		s.with(".("+e.Elem().Type().String()+")", func() { s.nextHeld = true; s.walk(e.Elem(), a.Elem(), false) })
 	case reflect.Int, reflect.Int8, reflect.Int16, reflect.Int32, reflect.Int64:
 		if e.Int() != a.Int() {
 			s.fail("value-mismatch", fmt.Sprintf("expected %d, got %d", e.Int(), a.Int()))
@@ -486,6 +513,25 @@ func (s *c03Iso) walk(e, a reflect.Value, direct bool) {
 	default:
 		s.fail("harness-unsupported-kind", e.Kind().String())
 	}
+}
+
+// overlappingSpans counts the slice locations whose backing array overlaps
+// that of a slice location visited before (views of one array, or one header
+// met twice). Measured only.
+func (w *c03Walk) overlappingSpans() int {
+	sp := append([]c03Span(nil), w.spans...)
+	sort.Slice(sp, func(i, j int) bool { return sp[i].lo < sp[j].lo })
+	n := 0
+	var hi uintptr
+	for i, x := range sp {
+		if i > 0 && x.lo < hi {
+			n++
+		}
+		if x.hi > hi {
+			hi = x.hi
+		}
+	}
+	return n
 }
 
 // c03FreshHit is one class of non-fresh reference found in a result.
@@ -514,6 +560,9 @@ func c03NotFresh(out *c03Walk, ins ...*c03Walk) []c03FreshHit {
 					label += "-in-interface"
 				default:
 					label += "-indirect"
+				}
+				if !info.outsideSkip {
+					label += "-under-dials-skipped-field"
 				}
 				if _, seen := hits[label]; !seen {
 					hits[label] = c03FreshHit{Label: label, Detail: fmt.Sprintf("%s %s %#x is reachable from the result and from an input", c03KindName(id.kind), id.typ, id.addr)}
